@@ -55,11 +55,11 @@ func c15Content(f string, v int, invalid bool) string {
 	}
 	switch f {
 	case "page":
-		return fmt.Sprintf("---\nlayout: lay\ntitle: T%d\n---\n<template :title=\"title + '!'\"></template><h1>{{ title }} P%d</h1><template include=\"comp.vuego\"></template>", v, v)
+		return fmt.Sprintf("---\nlayout: lay\ntitle: T%d\n---\n<template :title=\"title + '!'\"></template><h1>{{ title }} P%d</h1><template include=\"comp.vuego\"></template><template #side><i>S%d {{ title }}</i></template>", v, v, v)
 	case "comp":
 		return fmt.Sprintf("---\ncv: CV%d\n---\n<b>C%d {{ cv }}</b>", v, v)
 	case "lay":
-		return fmt.Sprintf("---\nlv: LV%d\n---\n<main>L%d {{ lv }}<div v-html=\"content\"></div></main>", v, v)
+		return fmt.Sprintf("---\nlv: LV%d\n---\n<main>L%d {{ lv }}<div v-html=\"content\"></div></main><aside><slot name=\"side\">no side</slot></aside>", v, v)
 	}
 	panic(f)
 }
@@ -810,7 +810,7 @@ func init() {
 	core.Register(&core.Check{
 		ID:    "C15",
 		Level: "model_checking",
-		Rule: "explicit-state search over all histories up to the bound of {edit page/component/layout with an mtime that advances, stays equal, goes back or (page) becomes the zero time; delete; make invalid (broken front-matter); render through Load().Render, RenderFile, Vue.Render (with and without data), Vue.RenderFragment} on an in-memory file system with chosen mtimes; each history is replayed on fresh long-lived engines (every engine carries a node processor whose pre-processing step marks the elements it is shown, so that nodes which outlive a render show it). " +
+		Rule: "explicit-state search over all histories up to the bound of {edit page/component/layout (the page hands a named slot template to its layout, whose text changes with every edit) with an mtime that advances, stays equal, goes back or (page) becomes the zero time; delete; make invalid (broken front-matter); render through Load().Render, RenderFile, Vue.Render (with and without data), Vue.RenderFragment} on an in-memory file system with chosen mtimes; each history is replayed on fresh long-lived engines (every engine carries a node processor whose pre-processing step marks the elements it is shown, so that nodes which outlive a render show it). " +
 			"A second world does the same for layout resolution: a post naming layout `wide` with a relative twin (blog/wide.vuego), a layouts/wide.vuego fallback and layouts/base.vuego, a page without layout; events create/edit/delete each of them, render both pages through Load().Render and RenderFile, and keep a loaded Template object across later events and render it then; the same world once more with the files overlaid (OverlayFS) on an unchanging layer of defaults for every path. " +
 			"oracle: after every render event, bytes/error equal those of newly created engines on the current files (differential, no hand-written expectation). states = distinct (file states, possibly-cached versions); a wrapping fs.FS counts reads to show that cache hits happen. non-trivial = all",
 		Bounds:      map[string]string{"quick": "histories of <=5 events over 19 event kinds; layout world: <=6 events over 12 kinds", "thorough": "histories of <=6 events; layout world <=7"},
